@@ -12,27 +12,41 @@ from common import REPO, Ctx, enc_text, exc_name
 PID = "C02"
 PROPS_MODULE = "NumbersModel.Props.C02"
 THEOREMS = [f"NumbersModel.Props.C02.{t}" for t in (
-    "record_resave", "record_resave_twice", "strings_resave", "strings_keys_faithful", "rows_resave", "tiles_resave")]
+    "record_resave", "record_resave_twice", "strings_resave", "strings_keys_faithful", "rows_resave", "tiles_resave",
+    "table_resave_idempotent", "table_resave_stable")]
 PARTIAL = {"resave_identity_document": "the whole-document statement (formulas, formatted values, bullets, hyperlinks, merge "
-                                       "ranges, sheet/table order) is not a theorem; only the cell-data layers are composed "
-                                       "(record, string table, rows, tiles). The rest is the dump comparison below (exploration)"}
+                                       "ranges, sheet/table order) is not a theorem; the cell data of a table is "
+                                       "(table_resave_idempotent / table_resave_stable: class, payload bytes, ids, text at every "
+                                       "position, any number of cycles; payload bytes are taken as re-packed unchanged, i.e. for "
+                                       "payloads in the packers' canonical form). The rest is the dump comparison below (exploration)"}
 RULE = ("every readable fixture under tests/data (quick: a fixed sample of 16 chosen to cover all cell kinds, formulas, bullets, "
         "hyperlinks, merges, custom formats, packages), the bundled template and API-generated documents: dump -> save -> open "
         "-> dump -> save -> open -> dump, with and without calling read-only accessors (formula, formatted_value, style, border, "
-        "row_height) before saving; plus string-table histories (init + lookup_key sequences on a real document vs the model). "
+        "row_height) before saving; plus string-table histories (init + lookup_key sequences on a real document vs the model) and, "
+        "for every table of opened fixtures / generated documents, the TST objects of the re-saved file vs saveTable on the cells "
+        "as read, and the re-opened grid vs loadTable (Model/TablePipeline). "
         "A case is non-trivial if the document has at least one non-empty cell; distinct by (document, accessor mode)")
 ASSUMPTIONS = ["the dump is what 'the library reads': sheet/table names and order and, per cell, class, repr(value), formula, "
                "formatted_value, bullets, hyperlinks, merge state; cells of class ErrorCell and pivot tables are excluded as the "
                "property says", "documents that do not open (encrypted, invalid, unsupported version) are outside the domain"]
 MANIFEST = {
-    "text": "Thin: the theorems compose the proved storage layers for one and for two open/save cycles — record_resave / "
+    "text": "Cell data of a table proved end to end, the rest thin: table_resave_idempotent (under the hypotheses of C01 "
+            "table_roundtrip, saving exactly what was read and reopening returns, at every position, the same class, payload bytes, "
+            "twelve ids and text as the first reopen, and both equal the original) and table_resave_stable (the same after any "
+            "number n of save/reopen cycles, none of which raises) over Model/TablePipeline's saveTable (recalculate_table_data) "
+            "and loadTable (Table.__init__). The layer theorems compose the storage layers for one and for two open/save cycles — record_resave / "
             "record_resave_twice (a record that was read and is written again decodes to the same class, payload and ids; built "
             "on C04 decode_encode), strings_resave / strings_keys_faithful (the string table rebuilt on save reads every text "
             "back under its new key; keys 1..n ascending), rows_resave and tiles_resave (C01). The document-level statement is "
             "checked by a whole-document dump comparison over fixtures and generated documents — implementation-level "
             "exploration, labelled as such in the evidence.",
-    "note": "formulas, formats, styles, protobuf object graph and zip/IWA layers are not modelled here (C05, C07, C08, C13-C16).",
-    "technique": "Lean 4 composition theorems (C04/C01 layers + string table) + differential correspondence of the string table + "
+    "note": "formulas, formats, styles, protobuf object graph and zip/IWA layers are not modelled here (C05, C07, C08, C13-C16). "
+            "recell (the in-memory cell after a reopen) keeps the payload bytes that were read: the real re-save re-packs the "
+            "interpreted value, which gives the same bytes for payloads in the packers' canonical form (those this library "
+            "wrote: C01 d128_roundtrip / struct) - for other encodings of the same number the value is preserved, the bytes need "
+            "not be. The extras byte may gain bit 0x80 once (a text cell built by the API has no _string_id, a reopened one has).",
+    "technique": "Lean 4 composition theorems (C04/C01 layers + string table; whole-table pipeline) + differential correspondence of "
+                 "the string table and of re-saved tables (real TST objects vs saveTable / loadTable) + "
                  "whole-document dump comparison (exploration)",
 }
 
@@ -215,6 +229,60 @@ def string_table_correspondence(ctx: Ctx):
     ctx.correspond("string table: init + lookup_key histories on a real document", req, out)
 
 
+TABLE_DOCS_QUICK = ["test-1.numbers", "test-formats.numbers", "test-bullets.numbers", "test-hlinks.numbers", "issue-43.numbers",
+                    "test-empty-rows.numbers", "test-new-formulas.numbers", "duration_112.numbers", "issue-80.numbers",
+                    "test-styles.numbers"]
+
+
+def table_resave_correspondence(ctx: Ctx):
+    """open a document, save it, reopen: for every (non-pivot) table the TST objects of the re-saved file vs the model's
+    `saveTable` on the in-memory cells *as read* (string ids, formula / format / style ids of the file), and the re-opened
+    grid vs `loadTable` on those objects (Model/TablePipeline; helpers shared with checks/c01.py)."""
+    import numbers_parser
+
+    from checks import c01
+    data = REPO / "tests" / "data"
+    names = [n for n in TABLE_DOCS_QUICK if (data / n).exists()] if ctx.quick else sorted(p.name for p in data.glob("*.numbers"))
+    req_s, out_s, dsc_s, req_l, out_l, dsc_l = [], [], [], [], [], []
+    limit = 6000 if ctx.quick else 60000
+    for name in names + ["gen-small", "gen-multi", "gen-tall", "gen-wide"]:
+        tmp = tempfile.mkdtemp(prefix="c02t-")
+        try:
+            try:
+                if name.startswith("gen-"):
+                    p0 = os.path.join(tmp, "zero.numbers")
+                    build_generated(name).save(p0)
+                    doc = numbers_parser.Document(p0)
+                else:
+                    doc = numbers_parser.Document(str(data / name))
+                tables = [(si, ti, t) for si, sh in enumerate(doc.sheets) for ti, t in enumerate(sh.tables)
+                          if not doc._model.is_a_pivot_table(t._table_id) and t.num_rows * t.num_cols <= limit]
+                before = [c01.wide_rows_flag(doc._model, t._table_id) for _, _, t in tables]
+                p1 = os.path.join(tmp, "one.numbers")
+                doc.save(p1)
+                doc1 = numbers_parser.Document(p1)
+            except Exception:  # noqa: BLE001  unreadable documents are outside the domain; a failing re-save is reported by cycle()
+                continue
+            for (si, ti, t), wb in zip(tables, before):
+                t1 = doc1.sheets[si].tables[ti]
+                objs = c01.saved_objects(doc1._model, t1._table_id)
+                req_s.append(c01.save_request(t, wb))
+                out_s.append(c01.saved_line(objs))
+                dsc_s.append(f"table save <{name} sheet {si} table {ti}: cells as read, {t.num_rows}x{t.num_cols}>")
+                mc = doc1._model.merge_cells(t1._table_id)
+                refs = sorted(rc for rc in mc._references if mc.is_merge_reference(rc))
+                req_l.append(c01.load_request(objs, refs))
+                out_l.append(c01.grid_line_impl(t1))
+                dsc_l.append(f"table load <{name} sheet {si} table {ti}: TST objects of the re-saved file>")
+                ctx.mark(("table-resave", name, si, ti))
+        finally:
+            shutil.rmtree(tmp, ignore_errors=True)
+    c01.correspond_long(ctx, "re-save of an opened document: TST objects of the saved file vs saveTable on the cells as read",
+                        req_s, out_s, describe=dsc_s)
+    c01.correspond_long(ctx, "re-opened grid vs loadTable on the TST objects of the re-saved file",
+                        req_l, out_l, fmap=c01.grid_line_model, describe=dsc_l)
+
+
 def run(ctx: Ctx):
     warnings.simplefilter("ignore")
     data = REPO / "tests" / "data"
@@ -227,8 +295,9 @@ def run(ctx: Ctx):
     tasks += [("generated", g, t) for g in ("gen-small", "gen-multi", "gen-tall", "gen-wide") for t in (False, True)]
     common.run_parallel(ctx, cycle, tasks)
     string_table_correspondence(ctx)
-    ctx.extra["exploration_note"] = ("the document dump comparison is implementation-level exploration; only the string-table "
-                                     "histories are model correspondence")
+    table_resave_correspondence(ctx)
+    ctx.extra["exploration_note"] = ("the document dump comparison is implementation-level exploration; the string-table "
+                                     "histories and the re-saved tables are model correspondence")
 
 
 def replay(data):
